@@ -47,6 +47,41 @@ impl ZobristTable {
         }
     }
 
+    /// Builds a table from explicit keys (run the engine under chosen keys).
+    #[cfg(flounder_verif)]
+    pub fn verif_from_keys(
+        table_keys: [[[u64; SQUARES as usize]; PIECE_COUNT]; COLOR_COUNT],
+        white_to_move_key: u64,
+        castling_right_keys: [[u64; CASTLE_RIGHTS_COUNT]; COLOR_COUNT],
+        en_passant_target_key: [u64; SQUARES as usize],
+    ) -> Self {
+        Self {
+            table_keys,
+            white_to_move_key,
+            castling_right_keys,
+            en_passant_target_key,
+        }
+    }
+
+    /// The drawn keys: (piece keys [color][piece][square], white-to-move, castling [color][side], en passant [square]).
+    #[cfg(flounder_verif)]
+    #[allow(clippy::type_complexity)]
+    pub fn verif_keys(
+        &self,
+    ) -> (
+        [[[u64; SQUARES as usize]; PIECE_COUNT]; COLOR_COUNT],
+        u64,
+        [[u64; CASTLE_RIGHTS_COUNT]; COLOR_COUNT],
+        [u64; SQUARES as usize],
+    ) {
+        (
+            self.table_keys,
+            self.white_to_move_key,
+            self.castling_right_keys,
+            self.en_passant_target_key,
+        )
+    }
+
     pub fn hash(&self, board: &Board) -> u64 {
         let mut hash: u64 = 0;
 
